@@ -342,7 +342,9 @@ pub fn run(seed: u64, samples: usize, workers: usize) -> Summary {
             let an = if op.lhs_scalar { 1 } else { n };
             let bn = op.rhs_n;
             let mut rng = Rng::new(seed, "c18i", oi as u64);
-            const SHIFTS: [i64; 18] = [0, 1, 2, 7, 8, 9, 15, 16, 17, 31, 32, 33, 63, 64, 65, -1, 127, 255];
+            // around every lane width, and amounts that become small only after truncation to 8 / 16 / 32 bits
+            const SHIFTS: [i64; 34] = [0, 1, 2, 7, 8, 9, 15, 16, 17, 31, 32, 33, 63, 64, 65, -1, 127, 255,
+                256, 257, 259, 271, 65536, 65537, 65539, 65551, 1 << 17, 1 << 31, (1 << 32) + 1, (1 << 32) + 3, 0xABCD_0003, 0x7FFF_FF00, 1 << 40, (1 << 48) + 5];
             let gen_b = |rng: &mut Rng, cls: Cls| -> u64 {
                 if op.is_shift && !matches!(cls, Cls::RandomBits) {
                     // shift amounts around every lane width, truncated to the right operand's type
